@@ -73,6 +73,11 @@ def op_to_mop(cirq, op, axis_of, keyid):
     if conds is None and cirq.has_kraus(op) and not cirq.is_measurement(op):
         ks = cirq.kraus(op)
         return f'(MKraus [{"; ".join(rmat(k) for k in ks)}] {gates.nlist(shape)} {axl})'
+    if conds is None and isinstance(gate, (cirq.KrausChannel, cirq.MixedUnitaryChannel)) and cirq.is_measurement(op):
+        # keyed channel: the index of the selected Kraus operator / unitary is recorded under the key
+        (key,) = cirq.measurement_key_names(op)
+        ks = cirq.kraus(op)
+        return f'(MKrausKeyed {keyid(key)}%nat [{"; ".join(rmat(k) for k in ks)}] {gates.nlist(shape)} {axl})'
     raise Unsupported(f'operation {op!r}')
 
 
@@ -95,6 +100,8 @@ def circuit_to_mops(cirq, circuit, qubit_order, keyid=None):
         terms.append(op_to_mop(cirq, op, axis_of, keyid))
         if isinstance(op.gate, cirq.MeasurementGate):
             meas.append((str(op.gate.key), len(op.qubits)))
+        elif isinstance(op.gate, (cirq.KrausChannel, cirq.MixedUnitaryChannel)) and cirq.is_measurement(op):
+            meas.append((next(iter(cirq.measurement_key_names(op))), 1))
     return '[' + ';\n '.join(terms) + ']', meas, keyid
 
 
